@@ -26,6 +26,13 @@ INSENSITIVE_CONSUMERS = {'sorted', 'set', 'frozenset', 'all', 'any', 'sum', 'max
                          'numpy.max', 'numpy.min', 'numpy.sum', 'np.max', 'np.min', 'np.sum', 'dict'}
 ORDER_PRESERVING = {'list', 'tuple', 'reversed', 'enumerate', 'iter', 'zip', 'itertools.chain', 'filter', 'itertools.groupby',
                     'itertools.izip', 'itertools.islice', 'numpy.array', 'np.array'}
+# library functions that *assume* their input is already sorted: on storage-ordered data their result depends on that order
+ORDER_ASSUMING = {
+    'heapq.merge': 'only interleaves inputs that are each already sorted: on unsorted inputs the merged stream is not in time order',
+    'bisect.bisect': 'searches a sorted list', 'bisect.bisect_left': 'searches a sorted list', 'bisect.bisect_right': 'searches a sorted list',
+    'bisect.insort': 'inserts into a sorted list',
+    'itertools.groupby': 'merges only adjacent equal keys',
+}
 ACCUMULATE = {'append', 'extend', 'add', 'update', 'appendleft', 'extendleft'}
 LOG_PREFIX = ('logging.', 'absl.logging.', 'warnings.')
 SHAPE_READS = {'len'}
@@ -199,6 +206,10 @@ class FuncORD:
           return self.sort_key_ok(ast.Lambda(args=defs[0].args, body=body[0].value))
       if len(lambdas) == 1 and not defs:
         return self.sort_key_ok(lambdas[0])
+      getters = [s.value for s in ast.walk(self.fn) if isinstance(s, ast.Assign) and len(s.targets) == 1 and isinstance(s.targets[0], ast.Name) and
+                 s.targets[0].id == key.id and isinstance(s.value, ast.Call) and (dotted(s.value.func) or '').split('.')[-1] in ('attrgetter', 'itemgetter')]
+      if len(getters) == 1 and not defs and not lambdas:
+        return self.sort_key_ok(getters[0])
       return 'unknown'
     if isinstance(key, ast.Lambda):
       body = key.body
@@ -520,6 +531,8 @@ class FuncORD:
         return []   # bag accumulation of the produced elements
       if d == 'sorted' or (isinstance(par.func, ast.Attribute) and par.func.attr == 'join'):
         return [] if d == 'sorted' else ['storage-ordered elements joined into a string']
+      if d in ORDER_ASSUMING:
+        return ['storage-ordered sequence passed to %s, which %s' % (d, ORDER_ASSUMING[d])]
       return [UNK + 'storage-ordered sequence passed to %s, whose order sensitivity is unknown' % (d or norm_text(par.func))]
     return self._flow_of_value(child, st)
 
@@ -546,6 +559,8 @@ class FuncORD:
         return [] if d in INSENSITIVE_CONSUMERS else self._flow_of_value(par, st)
       if isinstance(par.func, ast.Attribute) and par.func.attr in ACCUMULATE:
         return []
+      if d in ORDER_ASSUMING:
+        return ['storage-ordered sequence passed to %s, which %s' % (d, ORDER_ASSUMING[d])]
       return [UNK + 'storage-ordered sequence passed to %s, whose order sensitivity is unknown' % (d or norm_text(par.func))]
     if isinstance(par, ast.comprehension) or isinstance(par, (ast.For,)):
       return []   # it is itself traversed: that traversal is classified on its own
